@@ -115,6 +115,13 @@ def run(ctx):
         n = {"sqrt": 2, "cbrt": 3}.get(which) or r.choice([2, 3, 4, 5, 7, 10, 13, 32, 50])
         nb = r.choice([1, 2, 3, p // 2, p - 1, p, p, r.randint(1, p)])
         nb = max(1, min(nb, p, 8000 // n))          # keep r^n below ~8000 bits (decimal line protocol)
+        if i % 80 == 79:
+            # full-length bases at high precision: the Newton branch of mpf_nthroot takes many precision-doubling steps there,
+            # and a deficit in its step schedule only shows after several of them (r^n up to ~30000 bits on the line)
+            which = "root"
+            n = r.choice([3, 5, 6, 7, 9, 10, 11, 17, 20])
+            p = r.randint(600, min(2600, 30000 // n))
+            nb = p - r.choice([0, 0, 1, 3])
         base = (1 << (nb - 1)) | r.getrandbits(nb - 1) if nb > 1 else 1
         if r.random() < 0.2:
             base = (1 << nb) - 1
